@@ -880,6 +880,16 @@ func (ex *Exec) runCallback(fc *FuncContract, spec string, env *Env, pos token.P
 		before[k] = v
 	}
 	savedPC := ex.st.pc
+	var cbinv []Clause
+	if ex.top != nil && ex.top.contract != nil {
+		cbinv = ex.top.contract.CbInv
+	}
+	// callback invariant: must hold when the library function is entered
+	for i, c := range cbinv {
+		g := ex.evalBool(c.E, ex.st, nil)
+		ex.vc.Oblige("cbinv-entry", clauseName(c, i), ex.st.pc, g, ex.posString(pos))
+		ex.vc.Assume(ex.st.pc, g, "")
+	}
 	ex.inlineCall(nil, fv, []Value{Sc{a}, Sc{b}}, pos, ex.findContract(fv.Fn))
 	// frame of one arbitrary call
 	ex.frameCheck(ex.st, "callback "+f[0], "frame", ex.posString(pos))
@@ -890,16 +900,42 @@ func (ex *Exec) runCallback(fc *FuncContract, spec string, env *Env, pos token.P
 		}
 	}
 	sort.Strings(changed)
-	var hk []string
-	for _, k := range changed {
-		srt := ex.heapSort[k]
-		if srt == "" || strings.HasPrefix(k, "ghost<") {
-			continue
+	havocChanged := func() []string {
+		var hk []string
+		for _, k := range changed {
+			srt := ex.heapSort[k]
+			if srt == "" || strings.HasPrefix(k, "ghost<") {
+				continue
+			}
+			ex.st.heap[k] = ex.vc.Fresh("Hcb."+k, srt)
+			ex.noteHeapWrite(k)
+			hk = append(hk, k)
 		}
-		ex.st.heap[k] = ex.vc.Fresh("Hcb."+k, srt)
-		ex.noteHeapWrite(k)
-		hk = append(hk, k)
+		return hk
 	}
+	if len(cbinv) > 0 {
+		// inductive step: from ANY state the earlier calls may have left (what one call changes is
+		// havocked, the invariant assumed), one more call with arbitrary in-range arguments keeps it
+		ex.st.pc = savedPC
+		hk0 := havocChanged()
+		ex.assumeFrame(ex.st, hk0)
+		for _, c := range cbinv {
+			ex.vc.Assume(ex.st.pc, ex.evalBool(c.E, ex.st, nil), "callback invariant")
+		}
+		a2 := ex.vc.Fresh("cb.i", SInt)
+		b2 := ex.vc.Fresh("cb.j", SInt)
+		ex.vc.Assume(ex.st.pc, And(Le(I(0), a2), Lt(a2, n), Le(I(0), b2), Lt(b2, n)), "callback arguments in range")
+		ex.inlineCall(nil, fv, []Value{Sc{a2}, Sc{b2}}, pos, ex.findContract(fv.Fn))
+		for i, c := range cbinv {
+			g := ex.evalBool(c.E, ex.st, nil)
+			ex.vc.Oblige("cbinv-keep", clauseName(c, i), ex.st.pc, g, ex.posString(pos))
+		}
+	}
+	hk := havocChanged()
 	ex.assumeFrame(ex.st, hk)
 	ex.st.pc = savedPC
+	// after any number of calls the invariant holds
+	for _, c := range cbinv {
+		ex.vc.Assume(ex.st.pc, ex.evalBool(c.E, ex.st, nil), "callback invariant")
+	}
 }
